@@ -489,6 +489,9 @@ def solve(a, b):
 
 @solve.register(FermionicArray)
 def solve_fermionic(a, b):
+    # lazy phases must be multiplied in before solving with the raw blocks
+    a = a.phase_sync()
+    b = b.phase_sync()
     x = solve.dispatch(AbelianArray)(a, b)
 
     if x.indices[0].dual:
